@@ -24,10 +24,16 @@ def gen_tree(rng):
         files[path] = ('src', i, lines, level)
     for d in DIRS:
         for n in ["a.inc", "b.inc", "c.inc"]:
-            if rng.random() < 0.8:
+            r = rng.random()
+            if r < 0.72:
                 mk(d + "/" + n, rng.choice([1, 2, 3]))
-        if rng.random() < 0.8:
+            elif r < 0.82:
+                files[d + "/" + n] = ('dir',)          # a directory with the looked-up name: not a candidate, the search goes on
+        r = rng.random()
+        if r < 0.75:
             files[d + "/d.bin"] = ('bin', bytes([0xB0 + DIRS.index(d), 0xEE]))
+        elif r < 0.85:
+            files[d + "/d.bin"] = ('dir',)
     return files
 
 def norm(p):
@@ -45,18 +51,22 @@ def resolve(files, cur_dir, paths, name):
     """the documented rule: the including file's directory first, then each -I directory in order"""
     for d in [cur_dir] + list(paths):
         p = norm(d + "/" + name)
-        if p in files:
+        if p in files and files[p][0] != 'dir':
             return p
     return None
 
 class Missing(Exception):
     pass
 
-def expand(files, path, paths, depth=0):
+def expand(files, path, paths, depth=0, seen=None):
     """expected bytes of assembling the source file at `path`"""
     if depth > 12:
         raise RecursionError
+    seen = set() if seen is None else seen
     kind, ident, lines, _ = files[path]
+    if ident in seen:
+        raise Missing            # the file's local label would be defined twice: a diagnostic
+    seen.add(ident)
     out = bytearray([ident])
     cur = os.path.dirname(path)
     for d, name in lines:
@@ -66,19 +76,22 @@ def expand(files, path, paths, depth=0):
         if d == 'include':
             if files[p][0] != 'src':
                 raise Missing
-            out += expand(files, p, paths, depth + 1)
+            out += expand(files, p, paths, depth + 1, seen)
         else:
             f = files[p]
             out += f[1] if f[0] == 'bin' else source_text(f).encode()
-        out.append(0xFE)          # a marker after each directive: lookups continue relative to this file again
+        out += b"\xfe\x00\x00"  # a marker after each directive (lookups continue relative to this file again) + a word using a local label
     return bytes(out)
 
 def source_text(f):
     kind, ident, lines, _ = f
-    t = ["@db %d" % ident]
-    for d, name in lines:
+    # the root opens the only scope; every file defines a local label before any global of its own and after each of
+    # its directives: inclusion is textual, so all of them belong to the root's global label
+    t = (["Root0:"] if ident == 0xAA else []) + ["@db %d" % ident, ".f%d:" % ident]
+    for j, (d, name) in enumerate(lines):
         t.append('@%s "%s"' % (d, name))
         t.append("@db $fe")
+        t.append(".a%d_%d: @dw 0 - ( .f%d - .f%d )" % (ident, j, ident, ident))
     return "\n".join(t) + "\n"
 
 def run(ck):
@@ -112,7 +125,7 @@ def run(ck):
                 paths = ["/w/lib1"] + paths
         fs = {}
         for p, f in files.items():
-            fs[p] = f[1] if f[0] == 'bin' else source_text(f)
+            fs[p] = None if f[0] == 'dir' else f[1] if f[0] == 'bin' else source_text(f)
         for d in DIRS:
             fs.setdefault(d + "/.keep", "")        # make every directory exist
         try:
@@ -125,7 +138,7 @@ def run(ck):
             continue
         amb = 0
         for name in NAMES + ["d.bin"]:
-            if sum(1 for d in DIRS if norm(d + "/" + name) in files) >= 2:
+            if sum(1 for d in DIRS if norm(d + "/" + name) in files and files[norm(d + "/" + name)][0] != 'dir') >= 2:
                 amb += 1
         cases.append({"arch": "z80", "files": fs, "cwd": "/w", "root": root_arg, "paths": paths})
         expect.append(e); ambiguous.append(amb)
@@ -136,12 +149,12 @@ def run(ck):
             ck.nontriv(icase)
         ck.count("%s:%s" % ("DIAG" if e == "DIAG" else "OK", a.kind))
         if len(ck.samples) < 2 and e != "DIAG" and len(e) > 30:
-            ck.sample({"files": {p: (v if isinstance(v, str) else v.hex()) for p, v in c["files"].items() if not p.endswith(".keep")},
+            ck.sample({"files": {p: (v if isinstance(v, str) else 'DIR' if v is None else v.hex()) for p, v in c["files"].items() if not p.endswith(".keep")},
                        "paths": c["paths"], "root": c["root"], "expected": e})
         if a.canon() != e:
             ck.violation("search/inclusion: implementation %s, documented rule %s (paths %s, root %s)" % (
                 a.canon() + ((" " + (a.msg or "").replace("\n", " ")[-90:]) if not a.ok else ""), e, c["paths"], c["root"]),
-                {"mode": "asm", "arch": "z80", "files": {p: (v if isinstance(v, str) else v.hex()) for p, v in c["files"].items()},
+                {"mode": "asm", "arch": "z80", "files": {p: (v if isinstance(v, str) else 'DIR' if v is None else v.hex()) for p, v in c["files"].items()},
                  "paths": c["paths"], "root": c["root"], "cwd": "/w", "harness_case": icase, "expected": e})
             if sum(1 for v in ck.violations if not v[2]) >= 3:
                 break
@@ -158,6 +171,9 @@ def run(ck):
             base = os.path.join(scratch, "t%d" % n)
             for p, content in c["files"].items():
                 full = base + p
+                if content is None:
+                    os.makedirs(full, exist_ok=True)
+                    continue
                 os.makedirs(os.path.dirname(full), exist_ok=True)
                 with open(full, "wb") as f:
                     f.write(content.encode() if isinstance(content, str) else content)
@@ -171,7 +187,7 @@ def run(ck):
             if got != e:
                 ck.violation("real process (cwd %s, `az65 z80 %s %s`): %s, documented rule %s" % (
                     "/w", c["root"], " ".join("-I " + p for p in c["paths"]), got[:80] + " " + pr.stderr.decode(errors="replace")[-120:], e[:80]),
-                    {"mode": "cli", "files": {p: (v if isinstance(v, str) else v.hex()) for p, v in c["files"].items()},
+                    {"mode": "cli", "files": {p: (v if isinstance(v, str) else 'DIR' if v is None else v.hex()) for p, v in c["files"].items()},
                      "argv": ["az65", "z80", c["root"]] + sum([["-I", p] for p in c["paths"]], []), "cwd": "/w", "expected": e})
                 break
             shutil.rmtree(base, ignore_errors=True)
